@@ -160,6 +160,9 @@ func (mt *multiSwarm) LocalAddrs() (ret []Addr) {
 }
 
 func (mt *multiSwarm) Close() error {
+	// close the hub first: a receive loop that is handing over a message nobody receives lets go of it,
+	// otherwise a transport that waits for its buffers in Close would wait forever.
+	mt.tells.CloseWithError(p2p.ErrClosed)
 	var err error
 	for _, t := range mt.swarms {
 		if err2 := t.Close(); err2 != nil {
@@ -167,7 +170,6 @@ func (mt *multiSwarm) Close() error {
 			logctx.Errorln(mt.ctx, "closing swarms", err)
 		}
 	}
-	mt.tells.CloseWithError(p2p.ErrClosed)
 	return err
 }
 
